@@ -40,7 +40,9 @@ class Foreign(Engine):
                 ops.append({'op': 'plant', 'where': where, 'kind': kind, 'name': rng.choice(['notes.txt', 'extra', 'x.bin', 'lab book.md', 'ü'])})
         action = {'act': act, 'form': rng.choice(['object', 'str', 'Path']), 'overwrite': rng.random() < 0.5,
                   'newmeta': rng.random() < 0.3, 'rows': rng.choice([0, 1, 3, 9]), 'ctype': rng.choice(['gz', 'bz2', 'xz']),
-                  'existing_archive': rng.random() < 0.5}
+                  'existing_archive': rng.random() < 0.5,
+                  # the source of a creating call may itself fail part-way (a fault of the caller's iterable)
+                  'source_fails': rng.random() < 0.3}
         return {'engine': 'Foreign', 'prop': 'C16', 'occupant': occ, 'ops': ops, 'action': action}
 
     def simplify(self, sc):
@@ -180,14 +182,38 @@ class Foreign(Engine):
             elif act == 'delete_raggedarray':
                 darr.delete_raggedarray(handle if (form == 'object' and handle is not None) else tpath)
             elif act == 'asarray':
-                darr.asarray(tpath, np.arange(a['rows'] * 3, dtype='<i2').reshape(a['rows'], 3), overwrite=a['overwrite'],
-                             metadata={'n': 2} if a['newmeta'] else None)
+                src_arr = np.arange(a['rows'] * 3, dtype='<i2').reshape(a['rows'], 3)
+                if a.get('source_fails'):
+                    def failing():
+                        yield np.arange(6, dtype='<i2').reshape(2, 3)
+                        yield np.arange(3, dtype='<i2').reshape(1, 3)
+                        raise RuntimeError('source failed (injected)')
+                    src_arr = failing()
+                    st['probes']['creator_source_failed'] = 1
+                darr.asarray(tpath, src_arr, overwrite=a['overwrite'], metadata={'n': 2} if a['newmeta'] else None)
             elif act == 'create_array':
-                darr.create_array(tpath, shape=(a['rows'], 2), dtype='float32', chunklen=4, overwrite=a['overwrite'],
-                                  metadata={'n': 2} if a['newmeta'] else None)
+                ff = None
+                if a.get('source_fails'):
+                    calls = []
+
+                    def ff(i):
+                        calls.append(1)
+                        if len(calls) > 1:
+                            raise RuntimeError('fillfunc failed (injected)')
+                        return i
+                    st['probes']['creator_source_failed'] = 1
+                darr.create_array(tpath, shape=(max(a['rows'], 9), 2), dtype='float32', chunklen=4, overwrite=a['overwrite'],
+                                  fillfunc=ff, metadata={'n': 2} if a['newmeta'] else None)
             elif act == 'asraggedarray':
-                darr.asraggedarray(tpath, [np.arange(k + 1.) for k in range(a['rows'] + 1)], overwrite=a['overwrite'],
-                                   metadata={'n': 2} if a['newmeta'] else None)
+                items = [np.arange(k + 1.) for k in range(a['rows'] + 1)]
+                if a.get('source_fails'):
+                    def failing_items():
+                        yield np.arange(2.)
+                        yield np.arange(3.)
+                        raise RuntimeError('source failed (injected)')
+                    items = failing_items()
+                    st['probes']['creator_source_failed'] = 1
+                darr.asraggedarray(tpath, items, overwrite=a['overwrite'], metadata={'n': 2} if a['newmeta'] else None)
             elif act == 'create_raggedarray':
                 darr.create_raggedarray(tpath, atom=(2,), dtype='int16', overwrite=a['overwrite'],
                                         metadata={'n': 2} if a['newmeta'] else None)
@@ -260,7 +286,7 @@ class Foreign(Engine):
                     raise Viol('foreign.create', f'{tag}:refused_but_changed', d)
                 st['probes']['create_refused_existing'] = 1
             elif not exists:
-                if exc is not None:
+                if exc is not None and not (a.get('source_fails') and act in ('asarray', 'create_array', 'asraggedarray')):
                     raise Viol('foreign.create', f'{tag}:raises_on_free_path:{type(exc).__name__}', str(exc)[:200])
             else:
                 st['probes']['create_overwrite_on_' + occ] = 1
